@@ -983,6 +983,14 @@ func blocksCase(c *core.Case, corpus bool) {
 				return
 			}
 		}
+		if (corpus && c.I == 1 && h == 4) || (!corpus && h == 4 && r.Intn(6) == 0) {
+			// a block of several parts of the real part size
+			if err := ch.addBigTx(r); err != nil {
+				run.Inconclusive(fmt.Sprintf("case %s:%d height %d: %v", c.Group, c.I, h, err))
+				return
+			}
+			run.Count("blocks_with_a_transaction_larger_than_one_part", 1)
+		}
 		if h >= 3 && (r.Intn(2) == 0 || h == 3 || corpus) && ch.state.Validators.Size() > 1 {
 			if _, err := ch.addEvidence(r); err != nil {
 				run.Inconclusive(fmt.Sprintf("case %s:%d height %d: %v", c.Group, c.I, h, err))
